@@ -23,7 +23,8 @@ from .poly import P, Rat, from_ast, nfs, Unsupported, NonMonomialDivision
 
 PURE_FUNCS = {'float', 'int', 'len', 'abs', 'min', 'max', 'bool', 'str', 'tuple', 'list', 'range', 'sorted', 'sum', 'zip', 'enumerate', 'isinstance',
               'sin', 'cos', 'tan', 'sqrt', 'deg2rad', 'rad2deg', 'np.sin', 'np.cos', 'np.tan', 'np.sqrt', 'np.deg2rad', 'getattr', 'hasattr', 'type', 'dict', 'set'}
-PURE_METHODS = {'lower', 'upper', 'strip', 'startswith', 'endswith', 'get', 'keys', 'values', 'items', 'format', 'count', 'index'}
+PURE_METHODS = {'lower', 'upper', 'strip', 'startswith', 'endswith', 'get', 'keys', 'values', 'items', 'format', 'count', 'index',
+                'toarray', 'tocsr', 'tocoo', 'tocsc', 'copy', 'ravel', 'flatten', 'nonzero', 'sum', 'dot', 'reshape', 'transpose', 'conj', 'todense'}
 SCALAR_FUNCS = {'float', 'int', 'len', 'abs', 'sin', 'cos', 'tan', 'sqrt', 'deg2rad', 'rad2deg', 'np.sin', 'np.cos', 'np.tan', 'np.sqrt', 'np.deg2rad', 'min', 'max'}
 # attributes that hold matrices / vectors / containers: never treated as commuting scalars
 NONSCALAR_ATTR_PREFIX = ('k0', 'kG', 'kM', 'kA', 'cA', 'kT', 'kL', 'kuk', 'fext', 'fint', 'eigv', 'lam', 'plies', 'stack', 'forces', 'panels', 'conn',
@@ -57,8 +58,75 @@ def own_walk(node):
             todo.append(c)
 
 
+def free_names(node, skip_root_defs=True):
+    """Name nodes of `node` that refer to the function's own scope: nested function bodies are skipped and names bound by a
+    comprehension are skipped inside that comprehension"""
+    out = []
+
+    def rec(n, bound):
+        if isinstance(n, ast.Name):
+            if n.id not in bound:
+                out.append(n)
+            return
+        if isinstance(n, (ast.ListComp, ast.SetComp, ast.DictComp, ast.GeneratorExp)):
+            b2 = set(bound)
+            for g in n.generators:
+                # the first iterable is evaluated in the enclosing scope
+                rec(g.iter, b2 if g is not n.generators[0] else bound)
+                b2 |= {x.id for x in ast.walk(g.target) if isinstance(x, ast.Name)}
+                for c in g.ifs:
+                    rec(c, b2)
+            for part in ([n.elt] if hasattr(n, 'elt') else [n.key, n.value]):
+                rec(part, b2)
+            return
+        if isinstance(n, (ast.FunctionDef, ast.Lambda, ast.ClassDef)) and n is not node:
+            return
+        for c in ast.iter_child_nodes(n):
+            rec(c, bound)
+    rec(node, set())
+    return out
+
+
 # --------------------------------------------------------------------------
 # purity
+
+
+_kernel_names = None
+
+
+def kernel_names():
+    """names of the compiled kernels (def / cpdef functions of the .pyx sources whose name starts with f): they read the
+    object they are given and never store to one of its attributes (checked over all .pyx/.pxi sources on every run)"""
+    global _kernel_names
+    if _kernel_names is None:
+        import re
+        import subprocess
+        from .report import REPO
+        names, stores = set(), False
+        for root, _, files in os.walk(os.path.join(REPO, 'compmech')):
+            for f in files:
+                if f.endswith(('.pyx', '.pxi')):
+                    try:
+                        src = open(os.path.join(root, f), encoding='utf-8', errors='replace').read()
+                    except OSError:
+                        continue
+                    names |= {m.group(1) for m in re.finditer(r'^\s*(?:def|cpdef)\s+(f\w+)\s*\(', src, re.M)}
+                    if re.search(r'^\s*(?:panel|p|cc|self|s|stiff|bay|assy|p1|p2|obj)\.\w+(\[[^\]]*\])?\s*(=[^=]|\+=|-=|\*=)', src, re.M):
+                        stores = True
+        _kernel_names = set() if stores else names
+    return _kernel_names
+
+
+def state_preserving_call(c):
+    """a call that cannot change the attributes of the objects of the orchestration layer: pure functions and compiled kernels"""
+    if is_pure(c):
+        return True
+    if isinstance(c.func, ast.Attribute) and c.func.attr in kernel_names() and dotted(c.func.value) not in (None, 'self'):
+        return all(is_pure(a) or state_preserving_call(a) if isinstance(a, ast.Call) else is_pure(a) for a in list(c.args) + [k.value for k in c.keywords])
+    if dotted(c.func) in ('msg', 'log', 'warn', 'error', 'gc.collect', 'np.zeros', 'np.array', 'np.ascontiguousarray', 'np.asarray', 'np.deg2rad', 'deg2rad', 'csr_matrix', 'coo_matrix',
+                          'finalize_symmetric_matrix', 'make_symmetric', 'make_skew_symmetric', 'check_c', 'linspace', 'np.linspace', 'np.meshgrid', 'np.atleast_1d', 'np.zeros_like'):
+        return True
+    return False
 
 
 def is_pure(e):
@@ -77,11 +145,12 @@ def is_pure(e):
 
 
 def reads(e):
-    """(names, attribute chains, has_subscript) read by an expression"""
+    """(names, attribute chains) read by an expression (comprehension variables are not reads of the enclosing scope)"""
     names, attrs = set(), set()
-    for n in ast.walk(e):
-        if isinstance(n, ast.Name) and isinstance(n.ctx, ast.Load):
+    for n in free_names(e):
+        if isinstance(n.ctx, ast.Load):
             names.add(n.id)
+    for n in ast.walk(e):
         if isinstance(n, ast.Attribute):
             d = dotted(n)
             if d:
@@ -192,6 +261,111 @@ def always_exits(stmts):
     return False
 
 
+def decision_paths(st):
+    """an if statement whose branches are either leaves or consist of exactly one nested if -> [(list of (atom, polarity)), leaf statements)]
+    for every path; None when a test is not a combination of simple operands"""
+    def atoms_of(t):
+        t = canon_test(t)
+        if isinstance(t, ast.BoolOp):
+            parts = []
+            for v in t.values:
+                a = atoms_of(v)
+                if a is None:
+                    return None
+                parts.append(a)
+            return ('and' if isinstance(t.op, ast.And) else 'or', parts)
+        if simple_operand(t):
+            # positive literal form
+            nt = canon_test(negate(t))
+            if negativity(nt) < negativity(t) or (negativity(nt) == negativity(t) and dump(nt) < dump(t)):
+                return ('lit', nt, False)
+            return ('lit', t, True)
+        return None
+    return atoms_of
+
+
+def eval_formula(f, assign):
+    """three-valued evaluation of a formula under a partial assignment {atom dump: bool}"""
+    if f[0] == 'lit':
+        v = assign.get(dump(f[1]))
+        if v is None:
+            return None
+        return v if f[2] else not v
+    vals = [eval_formula(x, assign) for x in f[1]]
+    if f[0] == 'and':
+        if any(v is False for v in vals):
+            return False
+        return True if all(v is True for v in vals) else None
+    if any(v is True for v in vals):
+        return True
+    return False if all(v is False for v in vals) else None
+
+
+def formula_atoms(f, out):
+    if f[0] == 'lit':
+        out.setdefault(dump(f[1]), f[1])
+    else:
+        for x in f[1]:
+            formula_atoms(x, out)
+
+
+def canonical_decision(st, block_fn):
+    """rebuild an if / elif / nested-if decision structure over simple side-effect-free tests as a Shannon expansion on the
+    sorted atoms, merging equal leaves: nested and chained spellings of the same decision table get the same tree"""
+    atoms_of = decision_paths(st)
+
+    # collect the decision structure: internal node = (formula, then, else); leaf = list of statements
+    def build(node_stmts):
+        if len(node_stmts) == 1 and isinstance(node_stmts[0], ast.If):
+            s = node_stmts[0]
+            f = atoms_of(s.test)
+            if f is None:
+                return ('leaf', node_stmts)
+            return ('node', f, build(s.body), build(s.orelse))
+        return ('leaf', node_stmts)
+    tree = build([st])
+    if tree[0] == 'leaf':
+        return None
+    atoms = {}
+
+    def collect(t):
+        if t[0] == 'node':
+            formula_atoms(t[1], atoms)
+            collect(t[2])
+            collect(t[3])
+    collect(tree)
+    if len(atoms) > 6:
+        return None
+    order = sorted(atoms)
+
+    def leaf_for(t, assign):
+        while t[0] == 'node':
+            v = eval_formula(t[1], assign)
+            if v is None:
+                return None
+            t = t[2] if v else t[3]
+        return t[1]
+
+    def expand(assign, remaining):
+        lf = leaf_for(tree, assign)
+        if lf is not None:
+            return copy.deepcopy(lf)
+        if not remaining:
+            return None
+        a = remaining[0]
+        hi = expand(dict(assign, **{a: True}), remaining[1:])
+        lo = expand(dict(assign, **{a: False}), remaining[1:])
+        if hi is None or lo is None:
+            return None
+        if [dump(x) for x in hi] == [dump(x) for x in lo]:
+            return hi
+        node = ast.If(test=copy.deepcopy(atoms[a]), body=hi or [ast.Pass()], orelse=lo)
+        node._decision = True
+        return [node]
+    res = expand({}, order)
+    return res
+
+
 class Normalizer:
     def __init__(self, fn, sigdb=None):
         self.fn = fn
@@ -209,16 +383,119 @@ class Normalizer:
             before = dump(fn)
             fn.body = self.block(fn.body)
             self.forward_substitute(fn)
+            self.drop_rederivations(fn)
             for _m in range(30):
                 if not self.moves(fn):
+                    break
+            for _m in range(30):
+                if not self.moves_back(fn):
+                    break
+            self.merge_adjacent(fn)
+            self.order_independent(fn)
+            for _m in range(10):
+                if not self.split_literal_sequences(fn):
                     break
             self.dead_stores(fn)
             fn = ExprCanon(self, arith=False).visit(fn)
             ast.fix_missing_locations(fn)
             if dump(fn) == before:
                 break
+        fn.body = self.decide(fn.body)
         self.fn = fn
         return fn
+
+    def drop_rederivations(self, fn):
+        """a top-level statement that re-executes, unchanged, a statement of self._rebuild() after self._rebuild() (or
+        self.get_size(), which calls it) has run in this function, with nothing in between that writes what it reads or writes:
+        it re-derives the value _rebuild has just derived"""
+        rb = None
+        for k, v in self.sigdb.items():
+            if k[0] == 'rebuild':
+                rb = v
+        if rb is None or fn.name == '_rebuild' or getattr(self, '_is_rebuild', False):
+            return
+        if not hasattr(self, '_rb_dumps'):
+            f2 = copy.deepcopy(rb)
+            nz = Normalizer(f2, {k: v for k, v in self.sigdb.items() if k[0] != 'rebuild'})
+            nz._is_rebuild = True
+            try:
+                f2 = nz.run()
+            except RecursionError:
+                self._rb_dumps = {}
+                return
+            self._rb_dumps = {}
+            main = []
+
+            def main_path(stmts):
+                for st in stmts:
+                    if isinstance(st, ast.If) and always_exits(st.body) and st.orelse and not always_exits(st.orelse):
+                        main_path(st.orelse)
+                    elif isinstance(st, ast.If) and st.orelse and always_exits(st.orelse) and not always_exits(st.body):
+                        main_path(st.body)
+                    else:
+                        main.append(st)
+            main_path(f2.body)
+            for st in main:
+                if isinstance(st, (ast.Assign, ast.If)) and all(isinstance(x, ast.Attribute) and dotted(x) and dotted(x).startswith('self.') for x in ast.walk(st)
+                                                                 if isinstance(getattr(x, 'ctx', None), ast.Store)) \
+                        and not any(isinstance(c, ast.Call) and not is_pure(c) for c in ast.walk(st)):
+                    self._rb_dumps[dump(st)] = st
+        if not self._rb_dumps:
+            return
+        rebuilt = False
+        keep = []
+        dirty = set()
+        for st in fn.body:
+            is_rb = isinstance(st, ast.Expr) and isinstance(st.value, ast.Call) and dotted(st.value.func) in ('self._rebuild',)
+            calls_rb = any(isinstance(c, ast.Call) and dotted(c.func) in ('self._rebuild', 'self.get_size') for c in ast.walk(st))
+            if rebuilt and dump(st) in self._rb_dumps:
+                touched = {dotted(x) for x in ast.walk(st) if isinstance(x, ast.Attribute) and dotted(x)}
+                if not (touched & dirty) and 'CALL' not in dirty:
+                    continue
+            keep.append(st)
+            if is_rb or (calls_rb and isinstance(st, (ast.Assign, ast.If)) and not any(isinstance(c, ast.Call) and dotted(c.func) not in ('self._rebuild', 'self.get_size') and not state_preserving_call(c) for c in ast.walk(st))):
+                rebuilt = True
+                dirty = set()
+                continue
+            for x in ast.walk(st):
+                if isinstance(x, ast.Attribute) and isinstance(x.ctx, (ast.Store, ast.Del)) and dotted(x):
+                    dirty.add(dotted(x))
+                if isinstance(x, ast.Call) and not state_preserving_call(x) and dotted(x.func) not in ('self._rebuild', 'self.get_size', 'self._get_lam_F'):
+                    dirty.add('CALL')
+        fn.body = keep
+
+    def decide(self, stmts):
+        """final pass: decision structures in canonical (Shannon) form"""
+        out = []
+        for st in stmts:
+            if isinstance(st, ast.If) and st.orelse:
+                cd = canonical_decision(st, None)
+                if cd is not None:
+                    for x in self.polish(cd):
+                        out += self.decide_inside(x)
+                    continue
+            out += self.decide_inside(st)
+        return out
+
+    def decide_inside(self, st):
+        if isinstance(st, ast.If) and getattr(st, '_leafwalk', True):
+            # an If produced by canonical_decision: only its leaves are visited
+            st.body = self.decide_leaves(st.body)
+            st.orelse = self.decide_leaves(st.orelse)
+            return [st]
+        for f in ('body', 'orelse', 'finalbody'):
+            b = getattr(st, f, None)
+            if isinstance(b, list) and b and isinstance(b[0], ast.stmt) and not isinstance(st, (ast.FunctionDef, ast.ClassDef)):
+                setattr(st, f, self.decide(b))
+        if isinstance(st, ast.Try):
+            for h in st.handlers:
+                h.body = self.decide(h.body)
+        return [st]
+
+    def decide_leaves(self, stmts):
+        if len(stmts) == 1 and isinstance(stmts[0], ast.If) and getattr(stmts[0], '_decision', False):
+            return self.decide_inside(stmts[0])
+        return self.decide(stmts)
 
     def split_rebound_params(self, fn):
         """a parameter re-used as the target of a top-level for loop (`for plyt, ... in zip(plyts, ...)`) and not read
@@ -246,6 +523,9 @@ class Normalizer:
     def block(self, stmts):
         out = []
         stmts = [s for s in stmts if not (isinstance(s, ast.Pass) or (isinstance(s, ast.Expr) and isinstance(s.value, ast.Constant)))]
+        # progress messages of compmech.logger are not behaviour any of the properties speaks about
+        stmts = [s for s in stmts if not (isinstance(s, ast.Expr) and isinstance(s.value, ast.Call) and dotted(s.value.func) in ('msg', 'log', 'warn')
+                                          and all(is_pure(a) for a in list(s.value.args) + [k.value for k in s.value.keywords]))]
         i = 0
         while i < len(stmts):
             st = stmts[i]
@@ -278,8 +558,13 @@ class Normalizer:
                 if not body and not orelse:
                     if not is_pure(st.test):
                         out.append(ast.Expr(value=st.test))
+                elif len(body) == 1 and len(orelse) == 1 and isinstance(body[0], ast.Assign) and isinstance(orelse[0], ast.Assign) \
+                        and len(body[0].targets) == 1 and len(orelse[0].targets) == 1 and dotted(body[0].targets[0]) is not None \
+                        and dotted(body[0].targets[0]) == dotted(orelse[0].targets[0]) and is_pure(body[0].value) and is_pure(orelse[0].value) and is_pure(st.test) \
+                        and not isinstance(body[0].value, ast.IfExp) and not isinstance(orelse[0].value, ast.IfExp):
+                    ife = ast.IfExp(test=st.test, body=body[0].value, orelse=orelse[0].value)
+                    out += self.split_assign(ast.Assign(targets=[body[0].targets[0]], value=ife))
                 else:
-                    # if c: X elif-chain flattening is left as nested ifs (ast already nests elif in orelse)
                     st.body, st.orelse = body, orelse
                     out.append(st)
                 stmts = stmts[:i + 1] + rest
@@ -291,6 +576,11 @@ class Normalizer:
                 st.body = self.block(st.body) or [ast.Pass()]
                 st.orelse = self.block(st.orelse)
                 if isinstance(st, ast.For):
+                    un = self.unroll(st)
+                    if un is not None:
+                        out += self.block(un)
+                        i += 1
+                        continue
                     st = self.loop_idiom(st)
                 out.append(st)
             elif isinstance(st, ast.With):
@@ -314,6 +604,10 @@ class Normalizer:
                 st.op = ast.Sub()
                 st.value = ast.BinOp(left=st.value.left.operand, op=ast.Mult(), right=st.value.right)
                 out.append(st)
+            elif isinstance(st, ast.Expr) and isinstance(st.value, ast.Call) and dotted(st.value.func) == 'setattr' and len(st.value.args) == 3 and not st.value.keywords \
+                    and isinstance(st.value.args[1], ast.Constant) and isinstance(st.value.args[1].value, str) and st.value.args[1].value.isidentifier():
+                # setattr(obj, 'name', v) -> obj.name = v
+                out.append(ast.Assign(targets=[ast.Attribute(value=st.value.args[0], attr=st.value.args[1].value, ctx=ast.Store())], value=st.value.args[2]))
             elif isinstance(st, (ast.Return, ast.Raise, ast.Continue, ast.Break)):
                 out.append(st)
                 break       # unreachable code after an unconditional exit
@@ -321,6 +615,21 @@ class Normalizer:
                 out.append(st)
             i += 1
         return out
+
+    def polish(self, stmts):
+        res = []
+        for st in stmts:
+            if isinstance(st, ast.If):
+                st.body = self.polish(st.body)
+                st.orelse = self.polish(st.orelse)
+                if st.orelse:
+                    swap, nt = prefer_negated(st.test)
+                    if swap:
+                        st.test, st.body, st.orelse = nt, st.orelse, st.body
+                    if not st.body:
+                        st.test, st.body, st.orelse = canon_test(negate(st.test)), st.orelse, []
+            res.append(st)
+        return res
 
     def split_assign(self, st):
         # a = b = v  (v pure and simple)  ->  a = v; b = v
@@ -343,16 +652,69 @@ class Normalizer:
             # a component may read its own target (x = f(x)); it may not read the target of another component
             if ok:
                 return [s2 for a, b in pairs for s2 in self.split_assign(ast.Assign(targets=[a], value=b))]
-        # x = a if c else b  ->  if c: x = a else: x = b
-        if len(st.targets) == 1 and isinstance(st.value, ast.IfExp):
+        # T = a if c else T  ->  if c: T = a          T = T if c else b  ->  if not c: T = b
+        if len(st.targets) == 1 and isinstance(st.value, ast.IfExp) and dotted(st.targets[0]) is not None:
             tt = st.targets[0]
-            node = ast.If(test=st.value.test, body=[ast.Assign(targets=[copy.deepcopy(tt)], value=st.value.body)],
-                          orelse=[ast.Assign(targets=[copy.deepcopy(tt)], value=st.value.orelse)])
-            return self.block([node])
+            if dotted(st.value.orelse) == dotted(tt):
+                return self.block([ast.If(test=st.value.test, body=[ast.Assign(targets=[tt], value=st.value.body)], orelse=[])])
+            if dotted(st.value.body) == dotted(tt):
+                return self.block([ast.If(test=canon_test(negate(st.value.test)), body=[ast.Assign(targets=[tt], value=st.value.orelse)], orelse=[])])
+        # a, b, c = [f(v) for v in (x, y, z)]  ->  a = f(x); b = f(y); c = f(z)
+        if len(st.targets) == 1 and isinstance(t, (ast.Tuple, ast.List)) and isinstance(st.value, ast.ListComp) and len(st.value.generators) == 1 \
+                and not st.value.generators[0].ifs and isinstance(st.value.generators[0].iter, (ast.Tuple, ast.List)) \
+                and len(st.value.generators[0].iter.elts) == len(t.elts) and is_pure(st.value.elt):
+            g = st.value.generators[0]
+            outl = []
+            okc = True
+            for tgt, item in zip(t.elts, g.iter.elts):
+                if isinstance(g.target, ast.Name):
+                    mp = {g.target.id: item}
+                elif isinstance(g.target, (ast.Tuple, ast.List)) and isinstance(item, (ast.Tuple, ast.List)) and len(g.target.elts) == len(item.elts) \
+                        and all(isinstance(x, ast.Name) for x in g.target.elts):
+                    mp = {x.id: y for x, y in zip(g.target.elts, item.elts)}
+                else:
+                    okc = False
+                    break
+                outl.append(ast.Assign(targets=[tgt], value=inline._Subst(mp, {}).visit(copy.deepcopy(st.value.elt))))
+            # the components are evaluated before any target is bound: a target must not be read by a later component
+            if okc:
+                tn = [dotted(x) for x in t.elts]
+                for k2, a2 in enumerate(outl):
+                    nm, at = reads(a2.value)
+                    if any(x in nm or x in at for x in tn[:k2] if x):
+                        okc = False
+            if okc:
+                return [s2 for a2 in outl for s2 in self.split_assign(a2)]
         # x = x  (no-op)
         if len(st.targets) == 1 and isinstance(st.targets[0], ast.Name) and isinstance(st.value, ast.Name) and st.targets[0].id == st.value.id:
             return []
         return [st]
+
+    def unroll(self, st):
+        """for T in (e1, e2, ...): BODY  over a literal of at most four elements, BODY without break / continue / re-binding of T"""
+        if not isinstance(st.iter, (ast.Tuple, ast.List)) or not (1 <= len(st.iter.elts) <= 4) or st.orelse:
+            return None
+        if any(isinstance(n, (ast.Break, ast.Continue)) for b in st.body for n in ast.walk(b)):
+            return None
+        tnames = [x.id for x in ast.walk(st.target) if isinstance(x, ast.Name)]
+        if any(isinstance(n, ast.Name) and n.id in tnames and isinstance(n.ctx, ast.Store) for b in st.body for n in ast.walk(b)):
+            return None
+        if any(self.read_anywhere_else(nm, st) for nm in tnames):
+            return None
+        out = []
+        for e in st.iter.elts:
+            if isinstance(st.target, ast.Name):
+                mp = {st.target.id: e}
+            elif isinstance(st.target, (ast.Tuple, ast.List)) and isinstance(e, (ast.Tuple, ast.List)) and len(e.elts) == len(st.target.elts) \
+                    and all(isinstance(x, ast.Name) for x in st.target.elts):
+                mp = {x.id: y for x, y in zip(st.target.elts, e.elts)}
+            else:
+                return None
+            if not all(is_pure(v) for v in mp.values()):
+                return None
+            for b in st.body:
+                out.append(inline._Subst(mp, {}).visit(copy.deepcopy(b)))
+        return out
 
     def loop_idiom(self, st):
         # for i, x in enumerate(S) with i never read  ->  for x in S
@@ -387,7 +749,7 @@ class Normalizer:
                 for x in ast.walk(n.target):
                     if isinstance(x, ast.Name):
                         out.setdefault(x.id, []).append((n, 'other'))
-            elif isinstance(n, (ast.For, ast.comprehension)):
+            elif isinstance(n, ast.For):
                 for x in ast.walk(n.target):
                     if isinstance(x, ast.Name):
                         out.setdefault(x.id, []).append((n, 'other'))
@@ -412,15 +774,26 @@ class Normalizer:
         return out
 
     def forward_substitute(self, fn):
-        """v = <pure expr> assigned once, every name it reads never re-bound, attributes it reads not written and no
-        impure call between the definition and the uses (uses in the same block or nested inside it): replace uses"""
-        asg = self.assignments(fn)
-        changed = True
-        rounds = 0
-        while changed and rounds < 20:
-            changed = False
-            rounds += 1
+        """v = <pure expr>, v bound exactly once: every use of v that the definition dominates sees the same value as a
+        re-evaluation of the expression would, provided nothing on a path definition -> use re-binds a name the expression
+        reads, stores to an attribute / container it reads, or (when it reads attributes or subscripts) makes an impure
+        call.  Then the uses are replaced and the definition dropped.  Decided on the statement CFG."""
+        from .pyflow import CFG
+        for _round in range(40):
             asg = self.assignments(fn)
+            cfg = CFG(fn)
+            node_of = {}
+            for i, n in cfg.nodes.items():
+                if n is None:
+                    continue
+                hdr = cfg.header_expr(i)
+                scope = [hdr] if hdr is not None and not isinstance(n, ast.For) else []
+                if isinstance(n, ast.For):
+                    scope = [n.iter, n.target]
+                for part in scope:
+                    for x in ast.walk(part):
+                        node_of[id(x)] = i
+            done = False
             for blk in self.blocks(fn):
                 for i, st in enumerate(blk):
                     if not (isinstance(st, ast.Assign) and len(st.targets) == 1 and isinstance(st.targets[0], ast.Name)):
@@ -430,54 +803,76 @@ class Normalizer:
                         continue
                     if not is_pure(st.value) or isinstance(st.value, (ast.ListComp, ast.DictComp, ast.SetComp, ast.GeneratorExp, ast.List, ast.Dict, ast.Set)):
                         continue        # containers have identity: not substituted
+                    if any(isinstance(n, (ast.Lambda, ast.FunctionDef)) and n is not fn for n in ast.walk(fn)):
+                        continue        # closures capture late
+                    D = cfg.node_of_stmt(st)
+                    if D is None:
+                        continue
+                    uses = [n for n in free_names(fn) if n.id == v and isinstance(n.ctx, ast.Load)]
+                    if not uses or any(id(u) not in node_of for u in uses):
+                        continue
+                    if len(uses) > 1 and not isinstance(st.value, (ast.Name, ast.Constant, ast.Attribute)) and cost(st.value) > 60:
+                        continue
                     names, attrs = reads(st.value)
-                    if any(len(asg.get(nm, [])) > 1 or (len(asg.get(nm, [])) == 1 and asg[nm][0][1] == 'other' and not isinstance(asg[nm][0][0], ast.For)) for nm in names):
-                        continue
-                    # loop variables read by the value: the uses must be in the same loop body (they are: same block or nested)
-                    has_sub = any(isinstance(n, ast.Subscript) for n in ast.walk(st.value))
-                    rest = blk[i + 1:]
-                    uses = [n for s in rest for n in ast.walk(s) if isinstance(n, ast.Name) and n.id == v and isinstance(n.ctx, ast.Load)]
-                    all_uses = [n for n in own_walk(fn) if isinstance(n, ast.Name) and n.id == v and isinstance(n.ctx, ast.Load)]
-                    if len(uses) != len(all_uses) or not uses:
-                        continue
-                    # uses inside nested functions / lambdas / comprehensions capture late: skip
-                    if any(isinstance(n, (ast.Lambda, ast.FunctionDef)) for s in rest for n in ast.walk(s)):
-                        continue
-                    if attrs or has_sub:
-                        # state read by the value must be the same at the uses: scan the statements up to the last use
-                        last = max(k for k, s in enumerate(rest) if any(n in uses for n in ast.walk(s)))
-                        unsafe = False
-                        for s in rest[:last + 1]:
-                            for n in ast.walk(s):
-                                if isinstance(n, ast.Call) and not is_pure(n):
-                                    # a call that sits in the same statement as the (only) use and is evaluated with it is tolerated
-                                    # only if it is the consumer of the value itself
-                                    if not any(u in list(ast.walk(n)) for u in uses):
-                                        unsafe = True
-                                if isinstance(n, (ast.Attribute, ast.Subscript)) and isinstance(n.ctx, ast.Store):
-                                    d = dotted(n) if isinstance(n, ast.Attribute) else dotted(n.value)
-                                    if d and any(a == d or a.startswith(d + '.') or d.startswith(a + '.') for a in attrs):
-                                        unsafe = True
-                                    if isinstance(n, ast.Subscript) and has_sub:
-                                        unsafe = True
-                                if isinstance(n, ast.AugAssign):
-                                    pass
-                            if isinstance(s, (ast.For, ast.While)) and any(u in list(ast.walk(s)) for u in uses) and (attrs or has_sub):
-                                # used inside a loop: re-evaluated each iteration; state must not change in the loop
-                                for n in ast.walk(s):
-                                    if isinstance(n, ast.Call) and not is_pure(n) and not any(u in list(ast.walk(n)) for u in uses):
-                                        unsafe = True
-                        if unsafe:
+                    names.discard(v)
+                    state = bool(attrs) or any(isinstance(n, ast.Subscript) for n in ast.walk(st.value)) or any(isinstance(n, ast.Call) for n in ast.walk(st.value))
+                    killers = set()
+                    for k, n in cfg.nodes.items():
+                        if n is None or k == D:
                             continue
-                    if len(uses) > 1 and not isinstance(st.value, (ast.Name, ast.Constant, ast.Attribute)) and cost(st.value) > 40:
+                        hdr = cfg.header_expr(k)
+                        stores = []
+                        if isinstance(n, ast.For):
+                            stores = [x for x in ast.walk(n.target)]
+                        elif hdr is not None:
+                            stores = [x for x in free_names(hdr) if isinstance(x.ctx, (ast.Store, ast.Del))] + \
+                                [x for x in ast.walk(hdr) if isinstance(x, (ast.Attribute, ast.Subscript)) and isinstance(x.ctx, (ast.Store, ast.Del))]
+                            if isinstance(n, ast.AugAssign):
+                                stores.append(n.target)
+                        for x in stores:
+                            if isinstance(x, ast.Name) and x.id in names:
+                                killers.add(k)
+                            if isinstance(x, (ast.Attribute, ast.Subscript)) and state:
+                                d = dotted(x) if isinstance(x, ast.Attribute) else dotted(x.value)
+                                if d is None or not attrs or any(a == d or a.startswith(d + '.') or d.startswith(a + '.') for a in attrs) or isinstance(x, ast.Subscript):
+                                    killers.add(k)
+                        if state and hdr is not None:
+                            for c in ast.walk(hdr if not isinstance(n, ast.For) else n.iter):
+                                if isinstance(c, ast.Call) and not state_preserving_call(c):
+                                    killers.add(k)
+                    ok = True
+                    after_D = cfg.reachable(D)
+                    for u in uses:
+                        U = node_of[id(u)]
+                        if not cfg.must_pass(U, {D}) or U == D:
+                            ok = False
+                            break
+                        for k in killers:
+                            if k == U and not any(isinstance(cfg.nodes[k], t) for t in (ast.For,)):
+                                # the consumer statement itself: the value is read before the statement's own effect,
+                                # unless the statement re-binds a name the expression reads
+                                hdr = cfg.header_expr(k)
+                                if any(isinstance(x, ast.Name) and isinstance(x.ctx, ast.Store) and x.id in names for x in ast.walk(hdr)) and False:
+                                    ok = False
+                                continue
+                            if k in after_D and U in cfg.reachable(k, avoid={D}):
+                                ok = False
+                                break
+                        if not ok:
+                            break
+                    if not ok:
                         continue
                     for u in uses:
-                        replace_node(rest, u, st.value)
+                        replace_node(fn.body, u, st.value)
                     blk.pop(i)
-                    changed = True
+                    if not blk:
+                        blk.append(ast.Pass())
+                    done = True
                     break
-                if changed:
+                if done:
                     break
+            if not done:
+                break
 
     def moves(self, fn):
         """b = a  where the name a is never used again (read or written) after this statement and the statement is not inside
@@ -526,6 +921,173 @@ class Normalizer:
                 return True
         return False
 
+    def moves_back(self, fn):
+        """a = E; ...statements that only use a...; b = a   where a is bound once, every occurrence of a lies in this block between the
+        two statements, and b is neither read nor written in between: a was only a working name for b - rename a to b"""
+        asg = self.assignments(fn)
+        for blk in self.blocks(fn):
+            for j, st in enumerate(blk):
+                if not (isinstance(st, ast.Assign) and len(st.targets) == 1 and isinstance(st.targets[0], ast.Name) and isinstance(st.value, ast.Name)):
+                    continue
+                b, a = st.targets[0].id, st.value.id
+                if a == b or a in self.params or len(asg.get(a, [])) != 1 or asg[a][0][1] != 'assign':
+                    continue
+                d = asg[a][0][0]
+                if d not in blk:
+                    continue
+                i = blk.index(d)
+                if i >= j:
+                    continue
+                occ_all = [n for n in free_names(fn) if n.id == a]
+                occ_in = [n for s2 in blk[i:j + 1] for n in free_names(s2) if n.id == a]
+                if len(occ_all) != len(occ_in):
+                    continue
+                if any(n.id == b for s2 in blk[i:j] for n in free_names(s2)):
+                    continue
+                if any(isinstance(x, (ast.Lambda, ast.FunctionDef)) for s2 in blk[i:j] for x in ast.walk(s2)):
+                    continue
+                for n in occ_in:
+                    n.id = b
+                blk.pop(j)
+                return True
+        return False
+
+    def order_independent(self, fn):
+        """adjacent simple assignments that neither read nor write what the other writes, and make no call that could change
+        state, are put in a canonical order (by the text of their right-hand side with local names masked)"""
+        local = set(self.assignments(fn)) - set(self.params)
+
+        def rw(st):
+            w, r = set(), set()
+            tg = st.targets if isinstance(st, ast.Assign) else [st.target]
+            for t in tg:
+                for x in ast.walk(t):
+                    if isinstance(x, ast.Name) and isinstance(x.ctx, ast.Store):
+                        w.add(x.id)
+                    elif isinstance(x, ast.Attribute) and isinstance(x.ctx, ast.Store) and dotted(x):
+                        w.add(dotted(x))
+                    elif isinstance(x, ast.Subscript) and isinstance(x.ctx, ast.Store):
+                        w.add(dotted(x.value) or '?')
+                        r.add(dotted(x.value) or '?')
+            nm, at = reads(st.value)
+            r |= nm | at
+            if isinstance(st, ast.AugAssign):
+                r |= w
+            return w, r
+
+        def simple(st):
+            if not isinstance(st, (ast.Assign, ast.AugAssign)):
+                return False
+            return all(is_pure(c) or state_preserving_call(c) for c in ast.walk(st) if isinstance(c, ast.Call)) and not any(isinstance(x, (ast.Yield, ast.Await, ast.NamedExpr)) for x in ast.walk(st))
+
+        def overlap(a, b):
+            return any(x == y or x.startswith(y + '.') or y.startswith(x + '.') for x in a for y in b)
+
+        def key(st):
+            v = copy.deepcopy(st.value)
+            for x in ast.walk(v):
+                if isinstance(x, ast.Name) and x.id in local:
+                    x.id = '_'
+            t = st.targets[0] if isinstance(st, ast.Assign) else st.target
+            tk = dotted(t) if isinstance(t, ast.Attribute) else ''
+            return (type(st).__name__, tk or '', dump(v))
+        changed = False
+        for blk in self.blocks(fn):
+            for _ in range(len(blk)):
+                swapped = False
+                for i in range(len(blk) - 1):
+                    a, b = blk[i], blk[i + 1]
+                    if simple(a) and simple(b):
+                        wa, ra = rw(a)
+                        wb, rb = rw(b)
+                        if not overlap(wa, rb | wb) and not overlap(wb, ra) and key(b) < key(a):
+                            blk[i], blk[i + 1] = b, a
+                            swapped = changed = True
+                if not swapped:
+                    break
+        return changed
+
+    def split_literal_sequences(self, fn):
+        """v = [e0, e1, ...] bound once and only ever read as v[<constant>]  ->  v_0 = e0; v_1 = e1; ... (same evaluation order)"""
+        asg = self.assignments(fn)
+        for blk in self.blocks(fn):
+            for i, st in enumerate(blk):
+                if not (isinstance(st, ast.Assign) and len(st.targets) == 1 and isinstance(st.targets[0], ast.Name) and isinstance(st.value, (ast.List, ast.Tuple))):
+                    continue
+                v = st.targets[0].id
+                if len(asg.get(v, [])) != 1 or v in self.params or any(isinstance(e, ast.Starred) for e in st.value.elts):
+                    continue
+                occ = [n for n in free_names(fn) if n.id == v and isinstance(n.ctx, ast.Load)]
+                subs = [n for n in ast.walk(fn) if isinstance(n, ast.Subscript) and isinstance(n.value, ast.Name) and n.value.id == v and isinstance(n.ctx, ast.Load)
+                        and isinstance(n.slice, ast.Constant) and isinstance(n.slice.value, int) and 0 <= n.slice.value < len(st.value.elts)]
+                if not occ or len(occ) != len(subs):
+                    continue
+                names = ['%s_%d' % (v, k) for k in range(len(st.value.elts))]
+                blk[i:i + 1] = [ast.Assign(targets=[ast.Name(id=nm, ctx=ast.Store())], value=e) for nm, e in zip(names, st.value.elts)]
+
+                class RS(ast.NodeTransformer):
+                    def visit_Subscript(self, n):
+                        if n in subs:
+                            return ast.Name(id=names[n.slice.value], ctx=ast.Load())
+                        self.generic_visit(n)
+                        return n
+                for b2 in self.blocks(fn):
+                    for k2, s2 in enumerate(b2):
+                        b2[k2] = RS().visit(s2)
+                return True
+        return False
+
+    def merge_adjacent(self, fn):
+        ch = self._merge_adjacent(fn, 'forward')
+        ch = self._merge_adjacent(fn, 'merge') or ch
+        return ch
+
+    def _merge_adjacent(self, fn, mode):
+        """t = E; X = t   (adjacent, t used nowhere else)  ->  X = E"""
+        changed = False
+        for blk in self.blocks(fn):
+            i = 0
+            while i + 1 < len(blk):
+                a, b = blk[i], blk[i + 1]
+                if isinstance(a, ast.Assign) and len(a.targets) == 1 and isinstance(a.targets[0], ast.Name) and a.targets[0].id not in self.params \
+                        and isinstance(b, ast.Assign) and len(b.targets) == 1 and isinstance(b.value, ast.Name) and b.value.id == a.targets[0].id \
+                        and not isinstance(b.targets[0], (ast.Tuple, ast.List)):
+                    t = a.targets[0].id
+                    occ = [n for n in free_names(fn) if n.id == t]
+                    if len(occ) == 2 and not any(isinstance(n, ast.Name) and n.id == t for n in ast.walk(b.targets[0])):
+                        blk[i:i + 2] = [ast.Assign(targets=b.targets, value=a.value)]
+                        changed = True
+                        continue
+                # t = CALL; <next statement uses t once and makes no other impure call>  ->  the call moves into the next statement
+                if mode == 'merge' and isinstance(a, ast.Assign) and len(a.targets) == 1 and isinstance(a.targets[0], ast.Name) and a.targets[0].id not in self.params \
+                        and isinstance(a.value, ast.Call) and isinstance(b, (ast.Assign, ast.AugAssign, ast.Return, ast.Expr)):
+                    t = a.targets[0].id
+                    occ = [n for n in free_names(fn) if n.id == t]
+                    use = [n for n in free_names(b) if n.id == t and isinstance(n.ctx, ast.Load)]
+                    others = [c for c in ast.walk(b) if isinstance(c, ast.Call) and not is_pure(c)]
+                    if len(occ) == 2 and len(use) == 1 and not others and not any(isinstance(x, (ast.Lambda, ast.ListComp, ast.GeneratorExp, ast.DictComp, ast.SetComp, ast.IfExp, ast.BoolOp)) for x in ast.walk(b)):
+                        replace_node([b], use[0], a.value)
+                        blk[i:i + 2] = [b]
+                        changed = True
+                        continue
+                # self.X = E; <next statement reads self.X>  ->  the next statement reads E   (E built from local names only)
+                if mode == 'forward' and isinstance(a, ast.Assign) and len(a.targets) == 1 and isinstance(a.targets[0], ast.Attribute) and dotted(a.targets[0]) \
+                        and is_pure(a.value) and not reads(a.value)[1] and not any(isinstance(n, (ast.Subscript, ast.Call)) for n in ast.walk(a.value)) \
+                        and not isinstance(a.value, (ast.Constant,)) and isinstance(b, (ast.Return, ast.Assign, ast.Expr)):
+                    d = dotted(a.targets[0])
+                    hits = [n for n in ast.walk(b) if isinstance(n, ast.Attribute) and isinstance(n.ctx, ast.Load) and dotted(n) == d]
+                    if hits and cost(a.value) <= 12:
+                        class RA(ast.NodeTransformer):
+                            def visit_Attribute(self, n):
+                                if isinstance(n.ctx, ast.Load) and dotted(n) == d:
+                                    return copy.deepcopy(a.value)
+                                self.generic_visit(n)
+                                return n
+                        blk[i + 1] = RA().visit(b)
+                        changed = True
+                i += 1
+        return changed
+
     def blocks(self, fn):
         out = []
 
@@ -545,7 +1107,8 @@ class Normalizer:
     def dead_stores(self, fn):
         """local names that are never read: their pure assignments are dropped"""
         for _ in range(5):
-            readn = {n.id for n in ast.walk(fn) if isinstance(n, ast.Name) and isinstance(n.ctx, ast.Load)}
+            readn = {n.id for n in free_names(fn) if isinstance(n.ctx, ast.Load)} | \
+                {n.id for f2 in ast.walk(fn) if isinstance(f2, (ast.FunctionDef, ast.Lambda)) and f2 is not fn for n in ast.walk(f2) if isinstance(n, ast.Name)}
             removed = False
             for blk in self.blocks(fn):
                 for st in list(blk):
@@ -706,6 +1269,9 @@ class ExprCanon(ast.NodeTransformer):
     def visit_Call(self, n):
         self.generic_visit(n)
         d = dotted(n.func)
+        # getattr(obj, 'name') -> obj.name
+        if d == 'getattr' and len(n.args) == 2 and not n.keywords and isinstance(n.args[1], ast.Constant) and isinstance(n.args[1].value, str) and n.args[1].value.isidentifier():
+            return ast.Attribute(value=n.args[0], attr=n.args[1].value, ctx=ast.Load())
         # sorted(d.keys()) -> sorted(d)
         if d in ('sorted', 'list', 'len', 'set') and len(n.args) == 1 and isinstance(n.args[0], ast.Call) and isinstance(n.args[0].func, ast.Attribute) \
                 and n.args[0].func.attr == 'keys' and not n.args[0].args and d == 'sorted':
@@ -737,6 +1303,8 @@ class ExprCanon(ast.NodeTransformer):
             kws = [ast.keyword(arg=p, value=a) for p, a in zip(sig, n.args)] + list(n.keywords)
             names = [k.arg for k in kws]
             if len(set(names)) == len(names):
+                dfl = self.defaults(n)
+                kws = [k for k in kws if not (k.arg in dfl and dfl[k.arg] == dump(k.value))]
                 n.args = []
                 n.keywords = sorted(kws, key=lambda k: k.arg)
         elif all(k.arg is not None for k in n.keywords):
@@ -744,11 +1312,30 @@ class ExprCanon(ast.NodeTransformer):
         return n
 
     def dict_literal(self, v):
+        if isinstance(v, ast.Name):
+            lst = self.nz.assignments(self.nz.fn).get(v.id, [])
+            if len(lst) == 1 and lst[0][1] == 'assign' and isinstance(lst[0][0], ast.Assign):
+                lit = self.dict_literal(lst[0][0].value) if not isinstance(lst[0][0].value, ast.Name) else None
+                if lit is not None and all(is_pure(x) for _, x in lit):
+                    return [(a, copy.deepcopy(x)) for a, x in lit]
+            return None
         if isinstance(v, ast.Dict) and all(isinstance(k, ast.Constant) and isinstance(k.value, str) for k in v.keys):
             return [(k.value, x) for k, x in zip(v.keys, v.values)]
         if isinstance(v, ast.Call) and dotted(v.func) == 'dict' and not v.args and all(k.arg for k in v.keywords):
             return [(k.arg, k.value) for k in v.keywords]
         return None
+
+    def defaults(self, call):
+        d = dotted(call.func)
+        db = self.nz.sigdb
+        if d is None:
+            return {}
+        if d.startswith('self.') and d.count('.') == 1:
+            return db.get(('defaults', 'self', d[5:]), {})
+        last = d.split('.')[-1]
+        if '.' not in d:
+            return db.get(('defaults', 'func', last), {})
+        return db.get(('defaults', 'any', last), {})
 
     def signature(self, call):
         d = dotted(call.func)
@@ -771,8 +1358,30 @@ class ExprCanon(ast.NodeTransformer):
 # alpha renaming and comparison
 
 
+def rename_comprehension_vars(fn):
+    counter = [0]
+
+    def rec(n, depth):
+        for c in ast.iter_child_nodes(n):
+            rec(c, depth + (1 if isinstance(n, (ast.ListComp, ast.SetComp, ast.DictComp, ast.GeneratorExp)) else 0))
+        if isinstance(n, (ast.ListComp, ast.SetComp, ast.DictComp, ast.GeneratorExp)):
+            bound = []
+            for g in n.generators:
+                for x in ast.walk(g.target):
+                    if isinstance(x, ast.Name) and x.id not in bound:
+                        bound.append(x.id)
+            ren = {b: '_c%d_%d' % (depth, k) for k, b in enumerate(bound)}
+            first_iter = n.generators[0].iter
+            skip = {id(x) for x in ast.walk(first_iter)}
+            for x in ast.walk(n):
+                if isinstance(x, ast.Name) and x.id in ren and id(x) not in skip:
+                    x.id = ren[x.id]
+    rec(fn, 0)
+
+
 def alpha(fn, params):
     """rename the local names (everything stored in the function that is not a parameter) in order of first occurrence"""
+    rename_comprehension_vars(fn)
     stored = []
     for n in own_walk(fn):
         if isinstance(n, ast.Name) and isinstance(n.ctx, (ast.Store, ast.Del)) and n.id not in params and n.id not in stored:
@@ -833,12 +1442,23 @@ def build_sigdb(mod_funcs, class_methods, cls, extra=None):
     """parameter-name lists for keyword normal form: methods of the same class (self.x), module functions, and,
     for calls through other objects (p.calc_k0(...)), names that are unambiguous over all analysed classes"""
     db = {}
+
+    def dfl(f):
+        allp = f.args.posonlyargs + f.args.args
+        out = {a.arg: dump(d) for a, d in zip(allp[len(allp) - len(f.args.defaults):], f.args.defaults)}
+        out.update({a.arg: dump(d) for a, d in zip(f.args.kwonlyargs, f.args.kw_defaults) if d is not None})
+        return out
     for name, f in mod_funcs.items():
         if not (f.args.vararg or f.args.kwarg):
             db[('func', name)] = [a.arg for a in f.args.posonlyargs + f.args.args]
+            db[('defaults', 'func', name)] = dfl(f)
     for name, f in class_methods.get(cls, {}).items() if cls else []:
         if not (f.args.vararg or f.args.kwarg):
             db[('self', name)] = [a.arg for a in (f.args.posonlyargs + f.args.args)[1:]]
+            db[('defaults', 'self', name)] = dfl(f)
+    # statements of the class's _rebuild (normal form text): a re-execution of one of them after self._rebuild() is redundant
+    if cls and '_rebuild' in class_methods.get(cls, {}):
+        db[('rebuild', cls)] = class_methods[cls]['_rebuild']
     for k, v in (extra or {}).items():
         db.setdefault(k, v)
     return db
